@@ -88,7 +88,7 @@ CHECKS = {
          "4 C16"),
  "C18": ("model_checking",
          "complete enumeration of literal bodies over the terminator/escape alphabet for every opening form, against an independent first-real-terminator oracle",
-         "25 opening forms x every body over {delimiter, backslash, a, other quote} up to length 10 (11 thorough) x 2 tails; all 223 q-quote delimiter bytes x bodies to length 5 (6) x 6 prefixes; 4 dollar tags x bodies to length 7 (8): content length, close mark and resume offset of the literal token must equal those given by a plain forward scanner written from the property statement.",
+         "25 opening forms x every body over {delimiter, backslash, a, other quote} up to length 10 (11 thorough) x 2 tails; all 223 q-quote delimiter bytes x bodies to length 5 (6) x 6 prefixes; 4 dollar tags x bodies to length 7 (8); backslash runs of every length 0..80 and around 128 .. 65536 behind fillers of 0 .. 4098 bytes x 4 continuations: content length, close mark and resume offset of the literal token must equal those given by a plain forward scanner written from the property statement.",
          "The oracle is independent of the lexer (forward scan with explicit backslash parity).",
          "4 C18"),
  "C20": ("model_checking",
